@@ -29,6 +29,7 @@ import (
 	"flag"
 	"fmt"
 	"os"
+	"os/exec"
 	"runtime"
 	"sort"
 	"strings"
@@ -53,6 +54,7 @@ var (
 	known   = flag.String("known", "", "known_findings.json")
 	workers = flag.Int("workers", 16, "parallel workers")
 	verbose = flag.Bool("v", false, "print every finding")
+	child   = flag.Bool("child", false, "run the four calls of the case on stdin, print the outcomes (used for calls that may not return)")
 )
 
 var rep *lib.Report
@@ -134,6 +136,16 @@ type outcome struct {
 	class string // error class
 	msg   string
 	after string // canonical text of the data afterwards
+}
+
+// wireOutcome is an outcome as the child process prints it
+type wireOutcome struct {
+	Kind, Class, Msg, After string
+}
+
+func (o outcome) wire() wireOutcome { return wireOutcome{o.kind, o.class, o.msg, o.after} }
+func (o wireOutcome) outcome() outcome {
+	return outcome{kind: o.Kind, class: o.Class, msg: o.Msg, after: o.After}
 }
 
 func (o outcome) String() string {
@@ -351,11 +363,125 @@ func runImpl(c *Case, genData, must bool) (o outcome) {
 	return
 }
 
+// ---- calls that may not return -----------------------------------------------------------------
+
+// Set stores the new value by reference. Where the path visits what it has stored again (two descents: known
+// finding C13-repeated-location) a container value can end up inside itself, and Set then walks it for ever
+// (`$....*` with {"z":1}: known finding C13-set-self-containing). Such calls are made in a child process.
+const selfContainingID = "C13-set-self-containing"
+
+func (c *Case) mayNotReturn() bool {
+	if c.Op != "set" || !(strings.HasPrefix(c.Val, "[") || strings.HasPrefix(c.Val, "{")) {
+		return false
+	}
+	nd := 0
+	for _, f := range c.P {
+		if f.Kind == 'd' {
+			nd++
+		}
+	}
+	return nd >= 2
+}
+
+type childResult struct {
+	Impl, Must [2]wireOutcome
+}
+
+const (
+	childSeconds  = 4
+	childHeapMiB  = 768
+	stuckSeconds  = 20
+	stuckHeapGiB  = 8
+	childExitTime = 7
+	childExitMem  = 8
+)
+
+// childMain: read one case from stdin, make the four calls, print the outcomes. A watcher ends the process when
+// the calls take too long or the heap grows too large (a call that does not return keeps allocating).
+func childMain() {
+	go func() {
+		start := time.Now()
+		var ms runtime.MemStats
+		for {
+			time.Sleep(20 * time.Millisecond)
+			if time.Since(start) > childSeconds*time.Second {
+				os.Exit(childExitTime)
+			}
+			runtime.ReadMemStats(&ms)
+			if ms.HeapAlloc > childHeapMiB<<20 {
+				os.Exit(childExitMem)
+			}
+		}
+	}()
+	var c Case
+	if err := json.NewDecoder(os.Stdin).Decode(&c); err != nil {
+		fmt.Fprintln(os.Stderr, err)
+		os.Exit(3)
+	}
+	if err := c.prepare(); err != nil {
+		fmt.Fprintln(os.Stderr, err)
+		os.Exit(3)
+	}
+	var r childResult
+	for g := 0; g < 2; g++ {
+		r.Impl[g] = runImpl(&c, g == 1, false).wire()
+		r.Must[g] = runImpl(&c, g == 1, true).wire()
+	}
+	_ = json.NewEncoder(os.Stdout).Encode(r)
+}
+
+// callInChild makes the four calls of the case in a child process; how != "" says why no outcome came back.
+func callInChild(c *Case) (impl, must [2]outcome, how string) {
+	exe, err := os.Executable()
+	if err != nil {
+		return impl, must, "no executable: " + err.Error()
+	}
+	js, _ := json.Marshal(c)
+	cmd := exec.Command(exe, "-child")
+	cmd.Stdin = strings.NewReader(string(js))
+	var out strings.Builder
+	cmd.Stdout = &out
+	done := make(chan error, 1)
+	if err := cmd.Start(); err != nil {
+		return impl, must, "child does not start: " + err.Error()
+	}
+	go func() { done <- cmd.Wait() }()
+	select {
+	case err = <-done:
+	case <-time.After((childSeconds + 6) * time.Second):
+		_ = cmd.Process.Kill()
+		<-done
+		return impl, must, "Set did not return (child process killed)"
+	}
+	if err != nil {
+		if ee, ok := err.(*exec.ExitError); ok {
+			switch ee.ExitCode() {
+			case childExitTime:
+				return impl, must, fmt.Sprintf("Set did not return within %d s", childSeconds)
+			case childExitMem:
+				return impl, must, fmt.Sprintf("Set did not return before the heap reached %d MiB", childHeapMiB)
+			}
+		}
+		return impl, must, "child process failed: " + err.Error()
+	}
+	var r childResult
+	if err := json.Unmarshal([]byte(out.String()), &r); err != nil {
+		return impl, must, "child output unreadable: " + err.Error()
+	}
+	for g := 0; g < 2; g++ {
+		impl[g], must[g] = r.Impl[g].outcome(), r.Must[g].outcome()
+	}
+	return impl, must, ""
+}
+
 // ---- one case ---------------------------------------------------------------------------------
 
 type worker struct {
 	d   *lib.Driver
 	cur atomic.Value
+	// the case whose Go calls are running right now (nil: none) and since when (unix nano): read by the watchdog
+	inCall  atomic.Pointer[Case]
+	inSince atomic.Int64
 }
 
 func (w *worker) ask(reqs []string) ([]string, error) {
@@ -809,8 +935,32 @@ func (w *worker) run(c *Case) error {
 	rep.Count("op."+c.name(), 1)
 	dw := c.t.wire(nil)
 
-	impl := [2]outcome{runImpl(c, false, false), runImpl(c, true, false)}
-	must := [2]outcome{runImpl(c, false, true), runImpl(c, true, true)}
+	var impl, must [2]outcome
+	if c.mayNotReturn() {
+		// run in a child process that gives up after a time and memory limit
+		rep.Count("calls.in_child_process", 1)
+		var how string
+		impl, must, how = callInChild(c)
+		cyc := "S(" + lib.HexF([]byte("CYCLE")) + ")"
+		if how == "" {
+			for g := 0; g < 2; g++ {
+				if strings.Contains(impl[g].after, cyc) || strings.Contains(must[g].after, cyc) {
+					how = "the data contains itself afterwards"
+				}
+			}
+		}
+		if how != "" {
+			rep.Count("clause.self-containing", 1)
+			c.known(selfContainingID, "self-containing", "Set with a container as the new value on a path that visits what it has stored: "+how, map[string]any{"how": how})
+			return nil
+		}
+	} else {
+		w.inSince.Store(time.Now().UnixNano())
+		w.inCall.Store(c)
+		impl = [2]outcome{runImpl(c, false, false), runImpl(c, true, false)}
+		must = [2]outcome{runImpl(c, false, true), runImpl(c, true, true)}
+		w.inCall.Store(nil)
+	}
 
 	reqs := []string{c.modelReq(false, curFlags, dw), c.modelReq(true, curFlags, dw),
 		strings.Join([]string{"spec", c.Op, c.P.wire(), c.Data, c.arg()}, "\t")}
@@ -1173,21 +1323,6 @@ func produce(emit func(Case)) {
 		if c.t != nil && c.Data == "" {
 			c.Data = c.t.canon()
 		}
-		// Set stores the new value by reference. A path with two descents visits what it has stored again
-		// (known finding C13-repeated-location); with a container value the value then ends up inside
-		// itself and Set does not return (`$....*` with {"z":1}): such calls are not run.
-		if c.Op == "set" && (strings.HasPrefix(c.Val, "[") || strings.HasPrefix(c.Val, "{")) {
-			nd := 0
-			for _, f := range c.P {
-				if f.Kind == 'd' {
-					nd++
-				}
-			}
-			if nd >= 2 {
-				c.Val = "I(9)"
-				rep.Count("stream.container_value_with_two_descents_replaced", 1)
-			}
-		}
 		k := c.key()
 		if seen[k] {
 			rep.Count("stream.duplicates_skipped", 1)
@@ -1380,6 +1515,10 @@ func produce(emit func(Case)) {
 
 func main() {
 	flag.Parse()
+	if *child {
+		childMain()
+		return
+	}
 	rep = lib.NewReport(*prop, *tier, *seed)
 	knownList = lib.LoadKnown(*known, *prop)
 	initFlags()
@@ -1420,13 +1559,43 @@ func main() {
 		}(ws[i])
 	}
 	done := make(chan struct{})
+	// watchdog. (1) A Go call of the library that does not return (or eats memory): the case is reported as a
+	// violation (class hang) with its replay, the report is written and the harness ends — the call is abandoned,
+	// never skipped silently. (2) No progress at all for two minutes outside such a call: the machinery is stuck.
 	go func() {
 		last, stale := int64(-1), 0
+		tick := 0
+		var ms runtime.MemStats
 		for {
 			select {
 			case <-done:
 				return
-			case <-time.After(5 * time.Second):
+			case <-time.After(time.Second):
+			}
+			tick++
+			runtime.ReadMemStats(&ms)
+			now := time.Now().UnixNano()
+			for _, w := range ws {
+				c := w.inCall.Load()
+				if c == nil {
+					continue
+				}
+				since := time.Duration(now - w.inSince.Load())
+				if since > stuckSeconds*time.Second || (ms.HeapAlloc > stuckHeapGiB<<30 && since > 2*time.Second) {
+					what := fmt.Sprintf("%s does not return (running for %s, heap %d MiB): the call is abandoned", c.name(), since.Round(time.Second), ms.HeapAlloc>>20)
+					rep.Count("clause.hang", 1)
+					c.finding("violation", "hang", what, nil)
+					rep.Notes = append(rep.Notes, "run ended early: "+what+" — "+c.String())
+					rep.Rule = "ENDED EARLY by the watchdog: a library call did not return"
+					if err := rep.Write(*outPath); err != nil {
+						fmt.Fprintln(os.Stderr, err)
+						os.Exit(3)
+					}
+					os.Exit(0)
+				}
+			}
+			if tick%5 != 0 {
+				continue
 			}
 			p := atomic.LoadInt64(&progress)
 			if p == last {
